@@ -300,7 +300,20 @@ Definition C17_commit (g : cfg) (sg : seg) (sn : snap) : bool :=
    forallb (fun r => existsb (fun x => (vtx r =? fst x) && (tab_cls (vkey r) =? tabn g (snd x))%nat) (sn_chg sn)) (sn_vt sn) &&
    forallb (fun x => (length (filter (chg_eqb x) (sn_chg sn)) =? 1)%nat) (sn_chg sn)).
 
-Definition C17_prop : core_case -> bool := walk_case C17_commit no_rb.
+(* (a) the real Transaction.changed_entities, read for every record at the end of the run: exactly the version
+   rows stamped with the record's id, each under its own class (flat classes: table id = class index) *)
+Definition triple_eqb (a b : Z * nat * pk) : bool :=
+  (fst (fst a) =? fst (fst b)) && (snd (fst a) =? snd (fst b))%nat && pk_eqb (snd a) (snd b).
+Definition C17_changed_entities (c : core_case) : bool :=
+  match cc_ce c with
+  | None => true
+  | Some ce =>
+      let rows := map (fun r => (vtx r, tab_cls (vkey r), tl (vkey r))) (sn_vt (last (cc_snaps c) snap0)) in
+      forallb (fun x => existsb (triple_eqb x) rows) ce && forallb (fun x => existsb (triple_eqb x) ce) rows &&
+      (length ce =? length rows)%nat
+  end.
+
+Definition C17_prop (c : core_case) : bool := walk_case C17_commit no_rb c && C17_changed_entities c.
 
 (* ------------------------------------------------------------------ C13 (behavioural clauses) *)
 Definition C13_commit (r_blind : bool) (g : cfg) (sg : seg) (sn : snap) : bool :=
